@@ -111,6 +111,9 @@ class Multitask:
             Path(optimizer_path).mkdir(parents=True, exist_ok=True)
 
             filename = f"tuning_best_fit_{optimizer.name}_{datetime.now().strftime('%Y%m%d%H%M%S')}"
+            # algorithms of the same class share a folder: keep one file per algorithm
+            if [o.name for o in self._algorithms].count(optimizer.name) > 1:
+                filename = f"{filename}_{id_optimizer}"
             export_function(self._df2[id_optimizer], f"{optimizer_path}/{filename}")
 
     def __run__(
@@ -152,7 +155,11 @@ class Multitask:
 
                 best_fit_trials = self.__parallelize__(optimizer, task, mode, n_cpus, trial_list)
 
-                best_fit_optimizer_results[f"{optimizer.name}_{task.name}"] = best_fit_trials
+                # tasks of the same class would share a label: keep one column per task
+                label = f"{optimizer.name}_{task.name}"
+                if [t.name for t in self._tasks].count(task.name) > 1:
+                    label = f"{label}_{id_task}"
+                best_fit_optimizer_results[label] = best_fit_trials
 
             self._df2.append(pd.DataFrame(best_fit_optimizer_results))
 
